@@ -294,6 +294,8 @@ type vScenario struct {
 	// CSDir (with CS): the SCRIPT decides which waiting critical section runs next (step ["cs", <function>]); nothing
 	// is released between steps.  Scripts of this kind are behaviours of Conn.tla generated by TLC (ConnGenCS).
 	CSDir bool `json:"csdir"`
+	// Logging: the session runs over a LoggingTransport wrapped around the scripted transport
+	Logging bool `json:"logging"`
 	// RawInit (server side only): no handshake is performed; the script delivers `initialize` itself
 	// (step "init") and its handling is gated like any other handler (request tag "init").
 	RawInit bool `json:"rawinit"`
@@ -432,6 +434,14 @@ func vText(tag string) *CallToolResult {
 	return &CallToolResult{Content: []Content{&TextContent{Text: tag}}}
 }
 
+// transport is what the session is connected to: the scripted transport itself, or a LoggingTransport around it
+func (r *vRun) transport() Transport {
+	if r.sc.Logging {
+		return &LoggingTransport{Transport: r.conn, Writer: io.Discard}
+	}
+	return r.conn
+}
+
 func (r *vRun) setup(ctx context.Context) error {
 	r.conn = newVConn(r.log)
 	r.conn.resolve = func(kind, id, cref string) string {
@@ -484,7 +494,7 @@ func (r *vRun) setup(ctx context.Context) error {
 		})
 		errc := make(chan error, 1)
 		go func() {
-			cs, err := r.cl.Connect(ctx, r.conn, &ClientSessionOptions{ProtocolVersion: "2025-06-18"})
+			cs, err := r.cl.Connect(ctx, r.transport(), &ClientSessionOptions{ProtocolVersion: "2025-06-18"})
 			r.cs = cs
 			errc <- err
 		}()
@@ -532,7 +542,7 @@ func (r *vRun) setup(ctx context.Context) error {
 				return next(ctx, method, req)
 			}
 		})
-		ss, err := r.srv.Connect(ctx, r.conn, nil)
+		ss, err := r.srv.Connect(ctx, r.transport(), nil)
 		if err != nil {
 			return err
 		}
@@ -654,6 +664,25 @@ func (r *vRun) step(st []any) {
 	switch op {
 	case "call":
 		r.startCall(arg(1))
+	case "callbad":
+		// an outgoing CALL whose parameters cannot be encoded (NaN): it must fail at once and leave nothing registered
+		k := arg(1)
+		r.log.emit("callbad.begin", "k", k)
+		go func() {
+			defer func() {
+				if p := recover(); p != nil {
+					r.log.emit("panic", "msg", fmt.Sprint(p), "where", "callbad "+k)
+				}
+			}()
+			var err error
+			if r.cs != nil {
+				_, err = r.cs.CallTool(context.Background(), &CallToolParams{Name: "peer", Arguments: map[string]any{"k": k, "x": math.NaN()}})
+			} else {
+				_, err = r.ss.ListRoots(context.Background(), &ListRootsParams{Meta: Meta{"k": k, "x": math.NaN()}})
+			}
+			kind, _ := vErrKind(err)
+			r.log.emit("callbad.end", "k", k, "err", err != nil, "kind", kind)
+		}()
 	case "cancel":
 		r.mu.Lock()
 		cs := r.calls[arg(1)]
@@ -1113,8 +1142,16 @@ func vRandomScenario(rnd *rand.Rand, i int) *vScenario {
 	calls, creqs, notifs, dups, closes, waits := 0, 0, 0, 0, 0, 0
 	var liveCalls, liveCallReqs, liveReqs []string
 	cancelled := map[string]bool{}
-	listens := 0
+	if rnd.IntN(8) == 0 {
+		sc.Logging = true
+	}
+	listens, bads := 0, 0
 	for len(sc.Steps) < n {
+		if bads < 2 && rnd.IntN(24) == 0 {
+			bads++
+			sc.Steps = append(sc.Steps, []any{"callbad", fmt.Sprintf("b%d", bads)})
+			continue
+		}
 		if sc.Side == "server" && listens < 2 && rnd.IntN(16) == 0 {
 			listens++
 			sc.Steps = append(sc.Steps, []any{"listen", fmt.Sprintf("L%d", listens)})
